@@ -13,7 +13,7 @@ LEVEL = 'exploration'
 BUDGET = {'quick': 20, 'thorough': 240}
 STREAM_ORDER = ['ops', 'guards', 'moves', 'mat', 'chart', 'cfg']
 RULE = ('well-formed chart drawn per run whose code sends events (with and without delay); the seeded scheduler interleaves 1-3 logical '
-        'clients calling queue() - an Event instance, a name with keyword parameters, or both in one call - with delays from {none,0,1,2,2,5} (ties on purpose; in a third of the runs also -1 and -4: due since before it was queued), in a third of the runs the clock also moves while guards are evaluated, the statechart own sends, clock moves (0, exactly to the '
+        'clients calling queue() - an Event instance, a name with keyword parameters, or both in one call - with delays from {none,0,1,2,2,5} (ties on purpose; in a third of the runs also -1 and -4: due since before it was queued), in a third of the runs the clock also moves while guards are evaluated, in a quarter a listener queues further events while it is told about a consumption, the statechart own sends, clock moves (0, exactly to the '
         'next due time, one tick short of it, far beyond) and execute_once; a two-queue reference model runs in lock-step and the recorded '
         'history is checked at the end after a drain (every uid consumed exactly once, never before its due time); non-trivial = a '
         'consuming step taken while >= 2 events were pending; distinct = distinct (chart, pending-queue snapshot relative to the step time)')
@@ -57,6 +57,18 @@ def run(ch, tier):
     names = (sorted({t.event for t in sp.trans if t.event}) or ['ea']) + ['zz']
     n = ops.int(5, 60 if tier == 'quick' else 120)
     hist = []
+    if ch.s('cfg').flag(1, 4):
+        # a listener that reacts to the consumption of an event by queueing another one (also one that is due earlier): it is
+        # told once the event has been taken out of the queue, so the newcomer is simply one more pending event
+        lq = ch.s('moves')
+
+        def on_meta(me):
+            if me.name == 'event consumed' and lq.flag(1, 3):
+                d = lq.pick([None, 0, 1, -1, -4])
+                u = sim.queue(lq.pick(names), d)
+                hist.append(('queue', 'listener, while told about a consumption', u, d, float(sim.lastT)))
+                res.stats['queued_by_a_listener_during_a_step'] += 1
+        sim.it.attach(on_meta)
 
     def one_step(drain=False):
         truth = sim.draw_truth(gs, 4, 8) if not drain else {t.i: False for t in sp.trans if t.guard and t.event is None}
